@@ -284,6 +284,7 @@ RESULT = [["0", "Ok"], ["1", "Err"]]
 #            ("payload",)                  dest = move payload
 #            ("scrut",)                    dest = move scrutinee
 #            ("bool", v)                   dest = const v
+#            ("argval", k)                 dest = move argument k of the combinator (map_or's default); dropped in the other arm
 COMBINATORS = {
     "core::option::Option::<T>::map": (OPTION, 1, {"None": ("unit", "None"), "Some": ("call", "Some")}, {"Some": 0}),
     "core::option::Option::<T>::and_then": (OPTION, 1, {"None": ("unit", "None"), "Some": ("call", None)}, {"Some": 0}),
@@ -292,6 +293,8 @@ COMBINATORS = {
     "core::option::Option::<T>::ok_or_else": (OPTION, 1, {"None": ("call0", "Err"), "Some": ("rewrap", "Ok")}, {"Some": 0}),
     "core::option::Option::<T>::is_some_and": (OPTION, 1, {"None": ("bool", "0"), "Some": ("call", None)}, {"Some": 0}),
     "core::option::Option::<T>::is_none_or": (OPTION, 1, {"None": ("bool", "1"), "Some": ("call", None)}, {"Some": 0}),
+    "core::option::Option::<T>::map_or": (OPTION, 2, {"None": ("argval", 1), "Some": ("call", None)}, {"Some": 0}),
+    "core::result::Result::<T, E>::map_or": (RESULT, 2, {"Err": ("argval", 1), "Ok": ("call", None)}, {"Ok": 0, "Err": 1}),
     "core::task::Poll::<T>::map": (POLL, 1, {"Pending": ("unit", "Pending"), "Ready": ("call", "Ready")}, {"Ready": 0}),
     "core::result::Result::<T, E>::map": (RESULT, 1, {"Ok": ("call", "Ok"), "Err": ("rewrap", "Err")}, {"Ok": 0, "Err": 1}),
     "core::result::Result::<T, E>::map_err": (RESULT, 1, {"Ok": ("rewrap", "Ok"), "Err": ("call", "Err")}, {"Ok": 0, "Err": 1}),
@@ -468,6 +471,96 @@ def expand_for_each(b, i, closures, stats):
     return True
 
 
+def _single_assign(b, local):
+    found = None
+    for blk in b["blocks"]:
+        for s_ in blk["stmts"]:
+            if s_["k"] == "assign" and s_["place"]["l"] == local and not s_["place"]["p"]:
+                if found is not None:
+                    return None
+                found = s_
+        t = blk["term"]
+        if t["k"] == "call" and t["dest"]["l"] == local and not t["dest"]["p"]:
+            return None
+    return found
+
+
+def _trace_closure_local(b, local):
+    """Follow plain moves / copies / (re)borrows from `local` back to a local that is built as a crate closure."""
+    for _ in range(8):
+        if _closure_def(b, local) is not None:
+            return local
+        s_ = _single_assign(b, local)
+        if s_ is None:
+            return None
+        rv = s_["rv"]
+        if rv["k"] == "use" and rv["op"]["k"] in ("move", "copy") and not rv["op"]["place"]["p"]:
+            local = rv["op"]["place"]["l"]
+        elif rv["k"] == "ref" and (not rv["place"]["p"] or [e["k"] for e in rv["place"]["p"]] == ["deref"]):
+            local = rv["place"]["l"]
+        else:
+            return None
+    return None
+
+
+def expand_closure_call(b, i, closures, stats):
+    """`f(args)` where f is (a move / borrow of) a closure built in this very body -- typically a closure argument of a
+    private helper that has just been inlined -- becomes the closure's body."""
+    blk = b["blocks"][i]
+    t = blk["term"]
+    f = t["func"]
+    if not (f["k"] == "const" and "fn" in f and f["fn"].get("def") in ("core::ops::FnOnce::call_once", "core::ops::FnMut::call_mut", "core::ops::Fn::call")):
+        return False
+    if t["target"] is None or len(t["args"]) != 2 or t["args"][0]["k"] not in ("move", "copy") or t["args"][0]["place"]["p"]:
+        return False
+    cl_local = _trace_closure_local(b, t["args"][0]["place"]["l"])
+    if cl_local is None:
+        return False
+    cd = _closure_def(b, cl_local)
+    if cd is None or cd[0] not in closures:
+        return False
+    c = closures[cd[0]]
+    if len(b["blocks"]) + len(c["blocks"]) + 4 > MAX_BLOCKS:
+        return False
+    span = t["span"]
+    dest, target = t["dest"], t["target"]
+    tup = t["args"][1]
+    loff = len(b["locals"])
+    b["locals"].extend(c["locals"])
+    cty = c["locals"][1]
+    cplace = {"l": cl_local, "p": [], "ty": b["locals"][cl_local]}
+
+    def assign(place, rv):
+        return {"k": "assign", "place": copy.deepcopy(place), "rv": rv, "span": span}
+    pre = []
+    if cty.startswith("&"):
+        pre.append(assign({"l": loff + 1, "p": [], "ty": cty}, {"k": "ref", "mut": cty.startswith("&mut"), "place": cplace}))
+    else:
+        pre.append(assign({"l": loff + 1, "p": [], "ty": cty}, {"k": "use", "op": {"k": "move", "place": cplace}}))
+    for k in range(2, c["arg_count"] + 1):
+        if tup["k"] not in ("move", "copy"):
+            return False
+        fld = {"l": tup["place"]["l"], "p": list(tup["place"]["p"]) + [{"k": "field", "i": k - 2, "name": str(k - 2), "ty": c["locals"][k]}], "ty": c["locals"][k]}
+        pre.append(assign({"l": loff + k, "p": [], "ty": c["locals"][k]}, {"k": "use", "op": {"k": "move", "place": fld}}))
+    blk["stmts"].extend(pre)
+    boff = len(b["blocks"])
+    direct = not dest["p"]
+    for cblk in c["blocks"]:
+        nb = copy.deepcopy(cblk)
+        _remap_block(nb, loff, boff)
+        if direct:
+            _subst_local(nb, loff, dest["l"])
+        ct = nb["term"]
+        if ct["k"] == "return":
+            if not direct:
+                nb["stmts"].append(assign(dest, {"k": "use", "op": {"k": "move", "place": {"l": loff, "p": [], "ty": c["locals"][0]}}}))
+            nb["term"] = {"k": "goto", "target": target, "span": ct["span"]}
+        b["blocks"].append(nb)
+    blk["term"] = {"k": "goto", "target": boff, "span": span, "inlined": "closure call " + cd[0]}
+    stats[cd[0]] = stats.get(cd[0], 0) + 1
+    return True
+
+
 def _closure_def(b, local):
     """The crate closure a local is built from: its only definition is a closure aggregate (returns (path, stmt))."""
     found = None
@@ -556,6 +649,11 @@ def expand_combinator(b, i, closures, stats):
             if act[0] == "call" and c["arg_count"] >= 2:
                 pre.append(assign({"l": loff + 2, "p": [], "ty": c["locals"][2]}, {"k": "use", "op": {"k": "move", "place": payload(vname)}}))
             after = drop_closure_then(target) if env_by_ref else target
+            for act2 in actions.values():
+                if act2[0] == "argval" and t["args"][act2[1]]["k"] == "move":
+                    # the unused default value is dropped in the arm that calls the closure
+                    after = new_block([], {"k": "drop", "place": copy.deepcopy(t["args"][act2[1]]["place"]), "needs_drop": True,
+                                           "target": after, "unwind": None, "span": span})
             boff = len(b["blocks"]) + 1
             entry = new_block(pre, {"k": "goto", "target": boff, "span": span})
             assert entry == boff - 1
@@ -579,6 +677,8 @@ def expand_combinator(b, i, closures, stats):
                 rv = {"k": "use", "op": {"k": "move", "place": payload(vname)}}
             elif act[0] == "scrut":
                 rv = {"k": "use", "op": {"k": "move", "place": copy.deepcopy(sp)}}
+            elif act[0] == "argval":
+                rv = {"k": "use", "op": copy.deepcopy(t["args"][act[1]])}
             else:
                 rv = {"k": "use", "op": {"k": "const", "ty": "bool", "bits": act[1]}}
             after = drop_closure_then(target)
@@ -609,7 +709,7 @@ def expand_combinators(j):
             for i in range(len(b["blocks"])):
                 blk = b["blocks"][i]
                 if blk["term"]["k"] == "call" and not blk["cleanup"]:
-                    if expand_combinator(b, i, originals, stats) or expand_value_combinator(b, i, stats) or expand_for_each(b, i, originals, stats):
+                    if expand_combinator(b, i, originals, stats) or expand_value_combinator(b, i, stats) or expand_for_each(b, i, originals, stats) or expand_closure_call(b, i, originals, stats):
                         changed = True
     # a closure is analysed in place only when every construction of it feeds an expanded call
     built = {}
